@@ -229,6 +229,7 @@ type c20Case struct {
 	ctxN     int // -1 none, else ArgCountEquals(n)
 	args     []akind
 	apply    bool // the call is written arg ~> $f
+	noctx    bool // written $f(..).$ and evaluated without a context item
 }
 
 func c20Gen(rr *prng.R) c20Case {
@@ -284,6 +285,9 @@ func c20Gen(rr *prng.R) c20Case {
 	// a single argument that is not a function can also be supplied by the
 	// application operator: v ~> $f calls $f(v), in the same context
 	c.apply = len(c.args) == 1 && !strings.HasPrefix(c.args[0].Name, "function") && rr.Intn(2) == 0
+	// the call is the first step of a path evaluated without any context item
+	// (input nil): what is prepended as the context item is 'no value'
+	c.noctx = !c.apply && rr.Intn(6) == 0
 	return c
 }
 
@@ -350,6 +354,9 @@ func c20Call(r *fw.Rec, rr *prng.R) {
 	if c.apply {
 		prog = "ctx.((" + texts[0] + ") ~> $" + name + ")"
 	}
+	if c.noctx {
+		prog = "$" + name + "(" + strings.Join(texts, ", ") + ").$"
+	}
 	var pnames []string
 	for _, p := range c.params {
 		pnames = append(pnames, p.Name)
@@ -371,7 +378,11 @@ func c20Call(r *fw.Rec, rr *prng.R) {
 		r.Violation("valid-shape-rejected", fmt.Sprintf("registration of %s failed: %v", sigText, err), nil)
 		return
 	}
-	o := obs.Eval(e, map[string]interface{}{"ctx": "ctxval"})
+	var input interface{} = map[string]interface{}{"ctx": "ctxval"}
+	if c.noctx {
+		input = nil
+	}
+	o := obs.Eval(e, input)
 	r.Outcome(o.Class())
 	if o.Kind == "panic" {
 		r.ViolationStack("panic:"+o.Panic.Site+":"+o.Panic.Class, "Eval panicked: "+o.Panic.Value, o.Panic.Stack, nil)
@@ -382,6 +393,9 @@ func c20Call(r *fw.Rec, rr *prng.R) {
 	ctxInserted := false
 	if c.ctxN >= 0 && len(argv) == c.ctxN {
 		argv = append([]akind{{"string", `"ctxval"`}}, argv...)
+		if c.noctx {
+			argv[0] = akind{"missing", "nothing"}
+		}
 		ctxInserted = true
 	}
 	_ = ctxInserted
